@@ -12,8 +12,11 @@
 (* an event may carry eqto = j (j < its index, 0 = none): its row set     *)
 (* must equal the row set observed by event j (metamorphic clause).      *)
 (* TLC computes every expected value; the harness ships none.            *)
-EXTENDS EQLMech2, Json, IOUtils
+EXTENDS EQLMech3, Json, IOUtils
 
+CONSTANT B3Judge    \* "obs": stage B3 must predict the observed rows;  "sem": stage B3 (with whatever descent the
+                    \* configuration selects) must yield the denotation's rows - used to decide whether a wrong answer
+                    \* is the consequence of the descent of IndexedCache.retrieve (finding F2) and of nothing else
 Traces == ndJsonDeserialize(IOEnv.TRACE_FILE)
 
 VARIABLE i
@@ -103,11 +106,11 @@ SameTree(g, m) ==
                            /\ \A j \in 1..Len(g.args) : SameExpr(g.args[j], m.args[j])
        [] g.k \in {"and", "elif"} -> SameTree(g.l, m.l) /\ SameTree(g.r, m.r)
        [] OTHER -> FALSE
-\* the order in which the mechanism model yields the rows against the observed order (only when the model
-\* yields no duplicates, i.e. where stage B1 is exact)
+\* the order in which the mechanism model yields the rows against the observed order, for one variable (where stage
+\* B1 is exact; with several variables the order depends on duplicate suppression and cache replay: stages B2, B3)
 OrderDrift(q, W, rows) ==
   LET m == MechRowSeq(q, W)
-  IN NVars(q) <= 2 /\ Len(m) = Len(rows) /\ (\A a, b \in 1..Len(m) : a # b => ~SameRow(m[a], m[b]))
+  IN NVars(q) = 1 /\ Len(m) = Len(rows) /\ (\A a, b \in 1..Len(m) : a # b => ~SameRow(m[a], m[b]))
      /\ \E j \in 1..Len(m) : ~SameRow(m[j], rows[j])
 \* stage B2 (with duplicate suppression) predicts the exact row sequence of an evaluation made with the result caches
 \* switched off (events flagged b2)
@@ -127,12 +130,27 @@ DriftFailures(t) ==
                         THEN "drift.order-b2"
                    ELSE "ok"] : j \in 1..Len(t.graphs)} : f.clause # "ok"}
 
+\* stage B3 (with the operator result caches, the descent of the code) predicts the exact row sequence of the k-th
+\* complete evaluation of a query object made with caching enabled (events flagged b3) - also where rows are lost (F2)
+B3Drift(t) ==
+  {f \in {[id |-> t.id, at |-> j, clause |->
+             IF ~("b3" \in DOMAIN t.evs[j] /\ t.evs[j].b3) \/ t.evs[j].exc # "none" THEN "ok"
+             ELSE LET k == Cardinality({e \in 1..j : t.evs[e].op = "drain" /\ t.evs[e].qi = t.evs[j].qi})
+                      m == MechRowSeq3(t.qs[t.evs[j].qi], t.W, k)
+                      rows == t.evs[j].rows
+                      r == RowSeq(t.qs[t.evs[j].qi], t.W)
+                  IN IF B3Judge = "sem"
+                     THEN (IF (\A x \in 1..Len(m) : HasRow(r, m[x])) /\ (\A x \in 1..Len(r) : HasRow(m, r[x])) THEN "ok"
+                           ELSE "drift.b3-wrong-with-this-descent")
+                     ELSE IF Len(m) # Len(rows) \/ \E x \in 1..Len(m) : ~SameRow(m[x], rows[x]) THEN "drift.order-b3" ELSE "ok"]
+           : j \in 1..Len(t.evs)} : f.clause # "ok"}
+
 CaseFailures(t) == {f \in {[id |-> t.id, at |-> j, clause |-> EvVerdict(t, j)] : j \in 1..Len(t.evs)} :
                       f.clause # "ok"}
 
 Init == i = 1 /\ TLCSet(1, {}) /\ TLCSet(2, 0)
 Step == /\ i <= Len(Traces)
-        /\ LET f == CaseFailures(Traces[i]) \cup DriftFailures(Traces[i])
+        /\ LET f == CaseFailures(Traces[i]) \cup DriftFailures(Traces[i]) \cup B3Drift(Traces[i])
            IN /\ IF f = {} THEN TRUE ELSE TLCSet(1, TLCGet(1) \cup f)
               /\ TLCSet(2, i)
         /\ i' = i + 1
